@@ -87,8 +87,15 @@ class Fill(CellModifierInput):
         :type value: str
         """
 
+        def has_word(data, word):
+            # a shortcut (2j) among the entries is not a word and cannot be compared with one
+            return any(
+                not isinstance(node, syntax_node.ListNode) and node == word
+                for node in data.nodes
+            )
+
         def get_universe(value):
-            if ":" in value["data"].nodes:
+            if has_word(value["data"], ":"):
                 self._parse_matrix(value)
             else:
                 data = value["data"]
@@ -112,7 +119,7 @@ class Fill(CellModifierInput):
                     )
 
         data = value["data"]
-        if "(" in data.nodes:
+        if has_word(data, "("):
             get_universe(value)
             nodes = list(value["data"])
             start = nodes.index("(") + 1
